@@ -31,7 +31,7 @@ def impl(case):
             part = dict(case["cfg"], rules=case["cfg"]["rules"][:k])
             h = common.mk_cfg(part, R)
             try:
-                h.agenda(); h.naive_bottom_up()
+                h.agenda(); h.naive_bottom_up(); h.treesum(); h.trim(); h.cotrim()
             except Exception:  # noqa  (the partial grammar may diverge or be empty: only the final answer is compared)
                 pass
             for w, hd, b in case["cfg"]["rules"][k:]:
@@ -39,6 +39,10 @@ def impl(case):
             return h
         chart("agenda_grown", lambda: grown().agenda())
         chart("naive_grown", lambda: grown().naive_bottom_up())
+        try:
+            out["treesum_grown"] = common.enc_w(grown().treesum(), R)
+        except Exception as e:  # noqa
+            out["treesum_grown"] = {"exc": type(e).__name__, "msg": str(e)[:200]}
     try:
         out["treesum"] = common.enc_w(common.mk_cfg(case["cfg"], R).treesum(), R)
     except Exception as e:  # noqa
@@ -140,14 +144,15 @@ def run(ctx):
                 for X, v in got.items():
                     if X not in vals and json.loads(X) not in V and v not in (0, False):
                         semantic.append(_viol(c, hs, name, json.loads(X), 0, str(v)))
-            ts = res["treesum"]
-            evaluations += 1
-            if isinstance(ts, dict):
-                semantic.append(_viol(c, hs, "treesum", None, None, ts))
-            elif conv.get(Skey, True) and not common.close(common.num(ts), vals.get(Skey, 0), tol, 1e-9):
-                semantic.append(_viol(c, hs, "treesum", c["cfg"]["S"], vals.get(Skey, 0), ts))
-            else:
-                traces += 1
+            for tname in ("treesum",) + (("treesum_grown",) if c.get("split") is not None else ()):
+                ts = res[tname]
+                evaluations += 1
+                if isinstance(ts, dict):
+                    semantic.append(_viol(c, hs, tname, None, None, ts))
+                elif conv.get(Skey, True) and not common.close(common.num(ts), vals.get(Skey, 0), tol, 1e-9):
+                    semantic.append(_viol(c, hs, tname, c["cfg"]["S"], vals.get(Skey, 0), ts))
+                else:
+                    traces += 1
             if c["R"] == "Float" and c["id"] in ex:
                 evals, econv, edeep = ex[c["id"]]
                 el = res.get("expected_length")
